@@ -112,8 +112,14 @@ def r2(ctx):
     # which states does filter_ctl2 accept for ADD?
     ctl = prog.fn('qb_log_filter_ctl2')
     accepted = set()
+    # the state expression and the operation parameter as this function spells them (no local names assumed)
+    sexprs = {estr(ev.e) for ev in ctl.events('LOAD') if last_field(ev.e) == ('qb_log_target', 'state')}
+    if len(sexprs) != 1:
+        raise AnalysisBroken('qb_log_filter_ctl2: target state is read through %d different expressions' % len(sexprs))
+    sx = sexprs.pop()
+    cp = ctl.params[1]['n']
     for name, v in st.items():
-        visits, _t = abstract_run(ctl, {'conf[t].state': v, 'c': prog.econst('QB_LOG_FILTER_ADD')}, tracked={'conf[t].state', 'c'})
+        visits, _t = abstract_run(ctl, {sx: v, cp: prog.econst('QB_LOG_FILTER_ADD')}, tracked={sx, cp})
         if any(ev.kind == 'CALL' and ev.callee == '_log_filter_store' for (ev, env) in visits):
             accepted.add(v)
     if not accepted:
@@ -258,6 +264,19 @@ def r4(ctx):
                   'a match is only reported inside the priority window', 'a call site outside the priority window can match')
     star = [b for b in f.blocks.values() if b.cond is not None and has_call(b.cond, 'strcmp') and any(n.get('k') == 'str' and n.get('v') == '*' for n in walk(b.cond))]
     ctx.check('R4', 'star-matches-all', bool(star), f, '"*" selects every call site in the window', 'the "*" wildcard is no longer recognised')
+    # locals handed to a matcher that are declared with a constant initialiser (the regex subject starts as NULL):
+    # the evaluation starts at the switch, so they enter it with that constant
+    env0 = {}
+    for ev in f.events('CALL'):
+        if ev.callee in ('regexec', 'strcmp', 'strstr'):
+            for a in ev.args:
+                au = unwrap(a)
+                if au.get('k') == 'var' and au.get('sc') == 'l':
+                    for dv in f.events('DECL'):
+                        if dv.d['var'] == au['n'] and dv.d.get('init') is not None and cval(unwrap(dv.d['init'])) is not None:
+                            sts = [st for st in f.events('STORE') if estr(st.lhs) == au['n'] and sw[0].id not in f.dom().get(st.blk, set())]
+                            if not sts:
+                                env0[au['n']] = cval(unwrap(dv.d['init']))
     qb.SYM_FIELDS[0] = True
     try:
         want = {'QB_LOG_FILTER_FILE': ('strcmp', 'filename'), 'QB_LOG_FILTER_FUNCTION': ('strcmp', 'function'),
@@ -268,7 +287,7 @@ def r4(ctx):
                 ctx.inconclusive('R4', 'type:%s' % name, f, 'unknown filter type (rule table needs confirming)')
                 continue
             fn_, fld = want[name]
-            visits, _t = abstract_run(f, {typ: v, 'next': 0}, tracked={typ, 'next'}, start=sw[0].id)
+            visits, _t = abstract_run(f, dict(env0, **{typ: v}), tracked={typ} | set(env0), start=sw[0].id)
             used = set()
             for (ev, env) in visits:
                 if ev.kind == 'CALL' and ev.callee == fn_:
